@@ -99,6 +99,141 @@ def paragraphs_kept_case(seed):
     return parts, {"styleMap": sm, "ignoreEmpty": False, "includeDefault": rng.random() < 0.5}, expect
 
 
+def html_attr(s):
+    return s.replace("&", "&amp;").replace('"', "&quot;").replace("<", "&lt;").replace(">", "&gt;")
+
+
+def doc_bookmarks(elems, acc):
+    for e in elems:
+        if e.get("k") == "bm":
+            acc.append(e["name"])
+        doc_bookmarks(e.get("ch") or [], acc)
+    return acc
+
+
+def anchors_ok(case, r):
+    """every bookmark of the document AS READ (the reader's tree of the body: bookmarks inside paragraphs, cells, and the ones
+    that are direct children of a table or a row - range markup at a row or cell boundary) is written as an anchor, unless a
+    style mapping drops content (`!`); equal neighbours may merge, so: at least once"""
+    doc = r.get("doc") or {}
+    if "value" not in r or "children" not in doc:
+        return []
+    maps = (case["options"].get("styleMap") or "") + "".join(bytes.fromhex(p["hex"]).decode("utf-8", "replace") for p in case["parts"] if p["name"] == "mammoth/style-map")
+    if "!" in maps:
+        return []
+    prefix = case["options"].get("idPrefix") or ""
+    names = sorted(set(n for n in doc_bookmarks(doc["children"], []) if n is not None))
+    bad = [n for n in names if '<a id="%s">' % html_attr(prefix + n) not in r["value"]]
+    return ["bookmark %r of the document has no anchor in the output" % n for n in bad[:3]]
+
+
+def table_markup_case(seed):
+    """tables with and without header rows whose rows / cells are interleaved with what Word writes at row and cell
+    boundaries: bookmark starts (anchors, always written) and ends, comment ranges, proofing marks (nothing).  Also bookmarks
+    directly in cells, in the body next to the table, inside cell paragraphs, and nested tables with their own markup."""
+    rng = random.Random(seed)
+    from gen_docx import el
+    names, texts, nrows = [], [], [0]
+
+    def marks(p):
+        out = []
+        while rng.random() < p:
+            k = rng.random()
+            if k < 0.6:
+                name = "_GoBack" if rng.random() < 0.08 else "tm%d" % len(names)
+                if name != "_GoBack":
+                    names.append(name)
+                out.append(el("w:bookmarkStart", [("w:id", str(len(names))), ("w:name", name)]))
+                if rng.random() < 0.4:
+                    out.append(el("w:bookmarkEnd", [("w:id", str(len(names)))]))
+            else:
+                out.append(el(rng.choice(["w:bookmarkEnd", "w:commentRangeStart", "w:commentRangeEnd", "w:proofErr"]), [("w:id", "3")]))
+            p *= 0.5
+        return out
+
+    def para():
+        k = rng.random()
+        if k < 0.3:
+            return el("w:p", [], marks(0.3))
+        t = "x%d" % len(texts)
+        texts.append(t)
+        return el("w:p", [], marks(0.15) + [el("w:r", [], [el("w:t", [], [t])])] + marks(0.15))
+
+    def table(depth, between, in_row):
+        R, C = rng.randint(1, 4), rng.randint(1, 3)
+        n_head = rng.choice([0, 1, 1, 2, R]) if rng.random() < 0.7 else 0
+        ch = ([el("w:tblPr")] if rng.random() < 0.5 else []) + marks(between / 2)
+        for r_ in range(R):
+            cells = []
+            for _c in range(C):
+                content = marks(0.1)
+                for _ in range(rng.choice([0, 1, 1, 2])):
+                    if depth == 0 and rng.random() < 0.08:
+                        content.append(table(1, between, in_row))
+                    content.append(para())
+                    content.extend(marks(0.1))
+                cells.extend(marks(in_row))
+                cells.append(el("w:tc", [], ([el("w:tcPr")] if rng.random() < 0.5 else []) + content))
+            cells.extend(marks(in_row))
+            hdr = r_ < n_head or (r_ > n_head and rng.random() < 0.1)
+            ch.append(el("w:tr", [], ([el("w:trPr", [], [el("w:tblHeader")] if hdr else [])] if hdr or rng.random() < 0.3 else []) + cells))
+            nrows[0] += 1
+            ch.extend(marks(between))
+        return el("w:tbl", [], ch)
+    body = []
+    for _ in range(rng.choice([1, 1, 2])):
+        body.extend(marks(0.2))
+        if rng.random() < 0.4:
+            body.append(para())
+        body.append(table(0, rng.choice([0.0, 0.3, 0.6]), rng.choice([0.0, 0.0, 0.2])))
+    body.extend(marks(0.2))
+    if rng.random() < 0.5:
+        body.append(para())
+    opts = {}
+    if rng.random() < 0.5:
+        opts["ignoreEmpty"] = False
+    if rng.random() < 0.3:
+        opts["idPrefix"] = rng.choice(["doc-", "p<1>", "x y"])
+    if rng.random() < 0.3:
+        opts["styleMap"] = rng.choice(["table => table.t:fresh", "p => div:fresh", "table => div.t > table:fresh"])
+    parts = [{"name": "word/document.xml", "xml": el("w:document", [], [el("w:body", [], body)])}]
+    # document order (the order of generation is not the order in the document)
+    names, texts = [], []
+
+    def walk(n):
+        if isinstance(n, str):
+            texts.append(n)
+            return
+        if n[0] == "w:bookmarkStart" and dict(map(tuple, n[1])).get("w:name") != "_GoBack":
+            names.append(dict(map(tuple, n[1]))["w:name"])
+        for c in n[2]:
+            walk(c)
+    for b in body:
+        walk(b)
+    return {"parts": parts, "options": opts, "key": "c14tm-%d" % seed, "features": [], "meta": {"bookmarks": names, "texts": texts, "rows": nrows[0]}}
+
+
+def table_markup_ok(case, r):
+    """every bookmark of the document yields its anchor, once, in document order; every row its tr; all text is there"""
+    import htmlobs as HO
+    meta = case["meta"]
+    try:
+        nodes = HO.parse(r["value"])
+    except HO.Malformed as e:
+        return ["malformed output: %s" % e]
+    prefix = case["options"].get("idPrefix") or ""
+    ids, _hrefs = HO.ids_and_hrefs(nodes)
+    probs = []
+    if ids != [prefix + n for n in meta["bookmarks"]]:
+        probs.append("bookmark anchors %r, the document's bookmarks are %r" % (ids, [prefix + n for n in meta["bookmarks"]]))
+    ntr = sum(1 for _c, n in HO.walk(nodes) if n[0] == "el" and n[1] == "tr")
+    if ntr != meta["rows"]:
+        probs.append("%d tr elements for %d rows" % (ntr, meta["rows"]))
+    if HO.text_of(nodes) != "".join(meta["texts"]):
+        probs.append("text %r, the document's text is %r" % (HO.text_of(nodes), "".join(meta["texts"])))
+    return probs
+
+
 def run(out, tier, seed, model_ok):
     import re
     rng = random.Random(seed * 7919 + 14)
@@ -136,7 +271,7 @@ def run(out, tier, seed, model_ok):
     for i in range(common.deepen(300 if tier == "quick" else 4000)):
         g, parts, opts = cases.api_case(seed * 1000003 + 700000 + i,
                                         dict(p_empty=0.45, p_break=0.35, style_map=0.8, p_table=0.25, p_image=0.05, p_checkbox=0.1, p_bookmark=0.15, bang=0.2,
-                                             max_inlines=4, p_ppr_neutral=0.25), sm=dict(hostile=0.05, junk=0.0))
+                                             max_inlines=4, p_ppr_neutral=0.25, p_table_junk=0.3, p_header_rows=0.5), sm=dict(hostile=0.05, junk=0.0))
         opts.pop("format", None)
         prng = random.Random(seed * 1000003 + 700000 + i)
         if prng.random() < 0.6:
@@ -145,9 +280,12 @@ def run(out, tier, seed, model_ok):
             opts["styleMap"] = "\n".join(extra + [opts.get("styleMap") or ""])
         if prng.random() < 0.5:
             opts["ignoreEmpty"] = False
-        pipe_cases.append({"parts": parts, "options": opts, "features": sorted(g.used_features), "key": "c14p-%d-%d" % (seed, i)})
-    pipe = A.ApiRun(out, "C14", model_ok, lambda r, case: r.get("value"), name="rendered")
+        pipe_cases.append({"parts": parts, "options": opts, "features": sorted(g.used_features), "key": "c14p-%d-%d" % (seed, i), "want_doc": True})
+    pipe = A.ApiRun(out, "C14", model_ok, lambda r, case: r.get("value"), observers=[anchors_ok], name="rendered")
     pipe.run(pipe_cases, nontrivial=lambda c, r: c["options"].get("ignoreEmpty") is False or "styleMap" in c["options"])
+    # range markup at row / cell boundaries of tables with and without header rows: every bookmark keeps its anchor
+    tm = A.ApiRun(out, "C14", model_ok, lambda r, case: r.get("value"), observers=[table_markup_ok], name="table-markup")
+    tm.run([table_markup_case(seed * 1000003 + 800000 + i) for i in range(common.deepen(250 if tier == "quick" else 3000))], nontrivial=lambda c, r: bool(c["meta"]["bookmarks"]))
     # the option: ignore_empty_paragraphs=False keeps every paragraph that no `!` drops
     for i in range(150 if tier == "quick" else 2000):
         parts, opts, expect = paragraphs_kept_case(seed * 31 + i)
@@ -160,6 +298,10 @@ def run(out, tier, seed, model_ok):
     out.rule = ("forests: exhaustive up to %d nodes over {p, br, img} x {text, empty text, force-write} + random + forests captured from real conversions, "
                 "real strip_empty vs Lean stripEmpty (= prune hasContent by theorem) and vs an independent Python reading of 'has content'; plus documents of "
                 "empty/non-empty paragraphs with ignore_empty_paragraphs=False; non-trivial = something was stripped" % (3 if tier == "quick" else 4))
+    out.rule += ("; whole conversions (rendered value vs the model) of documents rich in empty content, now also with tables that hold non-row / non-cell children and header rows: "
+                 "each bookmark of the reader's tree (also those directly in w:tbl / w:tr) has its anchor unless a `!` mapping is present; plus tables with 0..all header rows, late header flags and nested tables whose rows and cells are "
+                 "interleaved with bookmark starts / ends, comment ranges and proofing marks (also directly in cells and in the body): the anchors of the output are the document's "
+                 "bookmarks in order (never _GoBack), one tr per row, text unchanged, with both values of ignore_empty_paragraphs")
     out.extra.update(exhaustive_part=nex, api_forests=napi)
     for f, origin in forests[nex:nex + 2] + forests[-1:]:
         out.sample({"origin": origin, "forest": f})
@@ -167,6 +309,9 @@ def run(out, tier, seed, model_ok):
 
 def replay(out, payload, model_ok):
     case = payload["case"]
+    if case["kind"] == "api" and case.get("check") == "table-markup":
+        A.replay_case(out, "C14", model_ok, payload, lambda r, case: r.get("value"), [table_markup_ok] if "meta" in case and not case.get("shrunk") else [])
+        return
     if case["kind"] == "api" and case.get("check") == "rendered":
         A.replay_case(out, "C14", model_ok, payload, lambda r, case: r.get("value"))
         return
